@@ -159,7 +159,9 @@ def run_history(case, ntime=None, script=None, direct=False):
                             ("mechanical_strain", st.mechanical_strain), ("thermal_strain", st.thermal_strain)):
                 worst[nm] = float(np.max(np.abs(arr - np.transpose(arr, (1, 0, 2, 3)))))
             out["sym"].append(worst)
-        out["Tq_nodal"] = [solver._res2quad(sp.state_n, tube.results["temperature"][i].flatten())
+        # the history temperature at the quadrature points, interpolated by scikit-fem directly (NOT through the
+        # solver's own _res2quad helper, which is code under test)
+        out["Tq_nodal"] = [np.array(sp.state_n.sbasis.interpolate(solver._tube2fea(tube, tube.results["temperature"][i])).value)
                            for i in range(nt_)]
     finally:
         for n in names:
@@ -482,8 +484,9 @@ def corr_setup(ctx, rng, reps):
             sf = rng.choice([0.0, 1.0, 0.5, 0.125, 0.875, rng.random(), rng.random()])
             sn.temperature = np.full(sn.temperature.shape, -7.0)     # must not be used as the base
             s1, p, t = solver._setup_state(sf, tube, i, sn)
-            Ta = solver._res2quad(sn, tube.results["temperature"][i - 1].flatten())
-            Tb = solver._res2quad(sn, tube.results["temperature"][i].flatten())
+            # scikit-fem interpolation directly, not the solver's own helper (code under test)
+            Ta = np.array(sn.sbasis.interpolate(tube.results["temperature"][i - 1].flatten()).value)
+            Tb = np.array(sn.sbasis.interpolate(tube.results["temperature"][i].flatten()).value)
             for idx in np.ndindex(Ta.shape):
                 lines.append("sb_interp %d %d %d" % (common.f2bits(Ta[idx]), common.f2bits(Tb[idx]), common.f2bits(sf)))
                 want.append([float(s1.temperature[idx])])
